@@ -435,7 +435,7 @@ func arithLayers(j judge, tier string) []Layer {
 			S, L = S9, 2
 		}
 		vecs := WVecs(L, S)
-		precs := []uint32{1, 19, 20, 38, 39, 57}
+		precs := []uint32{1, 18, 19, 20, 37, 38, 39, 57}
 		var xs []*Opnd
 		var xd []*Dec
 		layers = append(layers, Layer{
@@ -604,10 +604,18 @@ func arithLayers(j judge, tier string) []Layer {
 		if thorough {
 			qv = WVecs(3, S9)
 		}
+		// divisors whose leading word is ⌊B/k⌋ or ⌈B/k⌉ (where Knuth's normalisation factor changes), followed by large / small digits
+		for k := uint64(2); k <= 12; k++ {
+			for _, top := range []uint64{BW / k, BW/k + 1, BW/k - 1} {
+				for _, low := range []uint64{BW - 1, 0, BW / 2} {
+					yv = append(yv, []uint64{low, top}, []uint64{low, low, top})
+				}
+			}
+		}
 		layers = append(layers, Layer{
 			Name:   "L4-exactquo",
 			Units:  len(yv),
-			Bounds: fmt.Sprintf("Quo(x,y) with x = q·y + r, r in {0,+1,-1}; q in W(%d words), y in W(3,S9); prec in {digits(q), digits(q)+1, 57, 76}; 6 modes", len(qv[len(qv)-1])),
+			Bounds: fmt.Sprintf("Quo(x,y) with x = q·y + r, r in {0,+1,-1}; q in W(%d words), y in W(3,S9) ∪ {2–3-word divisors whose leading word is ⌊B/k⌋, ⌊B/k⌋±1 for k = 2..12}; prec in {digits(q), digits(q)+1, 57, 76}; 6 modes", len(qv[len(qv)-1])),
 			Run: func(c *Ctx, u int) {
 				yo := mkWords(false, yv[u], 0, 0, 0)
 				y := yo.Build()
@@ -723,6 +731,20 @@ func arithLayers(j judge, tier string) []Layer {
 					}
 					precs := []uint32{20, uint32(19 * L / 2), uint32(19 * L), uint32(19*L + 1)}
 					binSweep(c, j, []int{opMul, opQuo}, xo, yo, x, y, precs, modes)
+					// the same receiver used twice: its mantissa array is reused for the second quotient / product
+					if j == judgeValue && !c.Skip() {
+						p, m := uint32(19*L), uint8(ToNearestEven)
+						for _, op := range []int{opQuo, opMul} {
+							z := fresh(p, m)
+							pv, _ := protect(func() { doBin(op, z, x, y); doBin(op, z, x, y) })
+							exp := modelBin(op, xo.V, yo.V, p, m)
+							if pv != nil {
+								c.Fail(fmt.Sprintf("%s twice into one receiver x=%s y=%s prec=%d", opNames[op], xo, yo, p), fmt.Sprintf("panic: %v", pv))
+							} else if o := Observe(z); Canonical(o) != "" || !matchValue(o, exp) {
+								c.Fail(fmt.Sprintf("%s twice into one receiver x=%s y=%s prec=%d", opNames[op], xo, yo, p), "second result differs from the model: "+cmpValue(o, exp)+Canonical(o))
+							}
+						}
+					}
 					// exact and nearly exact quotients of the product
 					if len(xo.Words)+len(yo.Words) <= 140 {
 						pi := new(big.Int).Mul(xo.V.Coef, yo.V.Coef)
@@ -853,9 +875,10 @@ func arithLayers(j judge, tier string) []Layer {
 				for _, neg := range []bool{false, true} {
 					yo := mkCoef(neg, mustInt(s), -3, uint32(len(s))+3, 0)
 					y := yo.Build()
-					for zi := 0; zi < 4; zi++ {
-						// the zero operand is fresh, or lives in a variable that held a 3-word value before
-						zo := mkSpecial(fZero, zi%2 == 1, 34, 0).withStale(int8(3 * (zi / 2)))
+					for zi := 0; zi < 8; zi++ {
+						// the zero operand is fresh, or lives in a variable that held a 3-word value before; it carries
+						// precision 34 or precision 0 (new(Decimal): not larger than any receiver precision)
+						zo := mkSpecial(fZero, zi%2 == 1, []uint32{34, 0}[zi/4], 0).withStale(int8(3 * (zi / 2 % 2)))
 						z := zo.Build()
 						var precs []uint32
 						for p := uint32(1); p <= uint32(len(s)); p++ {
